@@ -270,6 +270,73 @@ def run(ctx):
                 res.violations.append({"what": "a data function of a non-accepted module (%s) called during an evaluation of accepted code is not refused with a DDS error "
                                                "naming the module: %s (its body ran: %s, paths committed: %s)" % (variant, out[:1] + (out[1][:160],), bool(EXEC_LOG), bool(store.synced)),
                                        "input": case, "kf": None})
+        # a constant (int, str, float, bool) of a module that is not accepted, read through the module (settings.RATE) or imported by
+        # name is not tracked by value: an edit of it changes no signature (only the accepted modules influence signatures)
+        for p in list(_accepted_packages):
+            if p not in before:
+                _accepted_packages.discard(p)
+        root = w.unique("c14k")
+        extk = w.unique("c14kx")
+
+        def extk_src(v):
+            return "RATE = %d\nNAME = 'n%d'\nFLAG = %s\nRATIO = %d.5\n" % (v, v, v % 2 == 0, v)
+        w.write_module(extk, extk_src(3), accept=False)
+        dds.accept_module(root)
+        main_k = ("import dds\nimport %s as settings\n\ndef top():\n    return 'k' + str(settings.RATE - settings.RATE) + str(len(settings.NAME)) + "
+                  "str(settings.FLAG or not settings.FLAG) + str(settings.RATIO - settings.RATIO)\n" % extk)
+        modk = w.write_module(root, main_k, accept=False)
+        res.evaluations += 1
+        res.nontrivial("constants of a non-accepted module")
+        res.count("e2e_external_constants")
+
+        def sig_k():
+            store.synced.clear()
+            try:
+                v = dds.keep("/pk", modk.top)
+                return ("ok", store.synced[-1]["/pk"], v)
+            except BaseException as e:
+                ws.reset_dds_state()
+                return ("exc", type(e).__name__, str(e)[:160])
+        k1 = sig_k()
+        w.rewrite_module(extk, extk_src(4))
+        modk = w.rewrite_module(root, main_k)
+        k2 = sig_k()
+        if k1[0] != "ok" or k2[0] != "ok" or k1[1] != k2[1]:
+            res.violations.append({"what": "editing the constants of a non-accepted module (read as settings.RATE, settings.NAME, ...) changed the signature of an accepted "
+                                           "function: %s -> %s" % (k1, k2), "input": {"non_accepted_module": extk_src(3), "caller": main_k.replace(extk, "EXT")}, "kf": None})
+        # a tracked variable of an accepted module of which only an attribute or a method is used (conf.NAME.upper(),
+        # pkg.conf.LIMIT.bit_length()): an edit of the variable changes the signature and the value
+        for p in list(_accepted_packages):
+            if p not in before:
+                _accepted_packages.discard(p)
+        root = w.unique("c14m")
+
+        def conf_src(v):
+            return "NAME = 'raw%d'\nLIMIT = %d\n" % (v, 2 ** v)
+        dds.accept_module(root)
+        w.write_module(root + ".settings.conf", conf_src(1), accept=False)
+        main_m = ("import dds\nimport %s.settings.conf\nfrom %s.settings import conf\n\ndef top():\n    return conf.NAME.upper() + str(%s.settings.conf.LIMIT.bit_length())\n" % (root, root, root))
+        modm = w.write_module(root + ".steps", main_m, accept=False)
+        res.evaluations += 1
+        res.nontrivial("attribute of a tracked variable")
+        res.count("e2e_attribute_of_variable")
+
+        def sig_m():
+            store.synced.clear()
+            try:
+                v = dds.keep("/pm", modm.top)
+                return ("ok", store.synced[-1]["/pm"], v)
+            except BaseException as e:
+                ws.reset_dds_state()
+                return ("exc", type(e).__name__, str(e)[:160])
+        m1 = sig_m()
+        w.rewrite_module(root + ".settings.conf", conf_src(3))
+        modm = w.rewrite_module(root + ".steps", main_m)
+        m2 = sig_m()
+        if m1[0] != "ok" or m2[0] != "ok" or m1[1] == m2[1] or m2[2] != "RAW34":
+            res.violations.append({"what": "editing tracked variables of an accepted module of which only an attribute / a method is used (conf.NAME.upper(), "
+                                           "pkg.settings.conf.LIMIT.bit_length()) did not change the signature / value: %s -> %s" % (m1, m2),
+                                   "input": {"accepted": ["ROOT"], "caller": main_m.replace(root, "ROOT")}, "kf": None})
         for p in list(_accepted_packages):
             if p not in before:
                 _accepted_packages.discard(p)
